@@ -19,7 +19,7 @@ def main():
     sel = sys.argv[1:]
     names = sorted(n for n in os.listdir(d) if os.path.isfile(os.path.join(d, n, 'patch.diff')) and (not sel or any(s in n for s in sel)))
     jobs = [(dict(prop=p, name=f'neutral-{n}', patch=os.path.join(d, n, 'patch.diff'), expect='silent'), '/repo') for n in names for p in PROPS]
-    with mp.Pool(16) as pool:
+    with mp.Pool(16, maxtasksperchild=12) as pool:
         res = pool.map(battery.run_mutant, jobs, chunksize=2)
     bad = {}
     skipped = set()
